@@ -40,6 +40,34 @@ theorem ado_leaves_world_to_env (pool : List (Spec τ)) (tock start : τ) (limit
   | true => rfl
   | false => simp only [adoLoop_snd, Nat.sub_zero]
 
+/-- CANCELLATION: an `ado` task cancelled at its `(j+1)`-th await leaves exactly the events, tyme, cycle count, doers list
+and raised flag of a `do()` run of the same program stopped by force after the same number of cycles (`fuel := j+1`); when
+the cancellation was delivered `done` is False.  Hence everything proved of `doistDo` for EVERY fuel (C01 lifecycle: every
+entered doer is exited; C02: forced exits nested, in reverse enter order) holds of a cancelled `ado`. -/
+theorem ado_cancelled_is_stopped_do (pool : List (Spec τ)) (tock start : τ) (limit : Option τ) (j : Nat)
+    (specs : List (Spec τ)) :
+    (doistAdoCancel pool tock start limit j specs).1.evs = (doistDo pool tock start limit (j+1) specs).evs
+    ∧ (doistAdoCancel pool tock start limit j specs).1.tyme = (doistDo pool tock start limit (j+1) specs).tyme
+    ∧ (doistAdoCancel pool tock start limit j specs).1.cycles = (doistDo pool tock start limit (j+1) specs).cycles
+    ∧ (doistAdoCancel pool tock start limit j specs).1.doers = (doistDo pool tock start limit (j+1) specs).doers
+    ∧ (doistAdoCancel pool tock start limit j specs).1.raised = (doistDo pool tock start limit (j+1) specs).raised
+    ∧ ((doistAdoCancel pool tock start limit j specs).2 = true → (doistAdoCancel pool tock start limit j specs).1.done = false) := by
+  unfold doistAdoCancel doistDo
+  rcases enterList start specs with ⟨es, deeds, b⟩
+  cases b with
+  | true => simp
+  | false =>
+    obtain ⟨h1, h2, h3, h4, h5, h6⟩ :=
+      adoLoopCancel_eq pool tock (limit.map (start + ·)) j 0 start deeds (specs.map Spec.id)
+    exact ⟨by simp only [h1], h2, h3, h4, h5, h6⟩
+
+/-- test: cancelled at the second await, the two live doers are force-closed in reverse order at tyme 2 -/
+example :
+    let p : List (Spec Nat) := [.leaf 1 .ok [⟨[], .yieldT (some 0)⟩, ⟨[], .yieldT (some 0)⟩, ⟨[], .yieldT none⟩],
+                                .leaf 2 .ok [⟨[], .yieldT none⟩, ⟨[], .yieldT none⟩, ⟨[], .yieldT none⟩]]
+    (doistAdoCancel [] 1 0 none 1 p).2 = true ∧ (doistAdoCancel [] 1 0 none 1 p).1.tyme = 2
+      ∧ ((doistAdoCancel [] 1 0 none 1 p).1.evs.filter (fun e => e.kind == .cease)).map Ev.id = [2, 1] := by decide
+
 /-- non-vacuity (test): a two-doer program with a limit, other tasks counting their turns: 3 cycles, 3 turns -/
 example :
     let p : List (Spec Nat) := [.leaf 1 .ok [⟨[], .yieldT (some 0)⟩, ⟨[], .yieldT (some 2)⟩, ⟨[], .yieldT none⟩],
